@@ -187,7 +187,7 @@ class ConcentrationAnalysis:
             )
 
             # Combine the results of a series of images
-            for img in baseline_images:
+            for counter, img in enumerate(baseline_images):
                 probe_img = img.copy()
 
                 # Take (unsigned) difference
@@ -195,6 +195,13 @@ class ConcentrationAnalysis:
 
                 # Extract scalar version
                 monochromatic_diff = self._reduce_signal(diff)
+
+                # The filter acts on the reduced signal and thus needs its shape;
+                # without signal reduction, the signal keeps its color channels.
+                if counter == 0:
+                    self.threshold_cleaning_filter = np.zeros(
+                        monochromatic_diff.shape, dtype=float
+                    )
 
                 # Consider elementwise max
                 self.threshold_cleaning_filter = np.maximum(
